@@ -104,6 +104,12 @@ Proof.
   unfold ke, kd, th2c, kc, tl2, th2, kb, ka, tl, th in *. lia.
 Qed.
 
+(* hypotheses that lia must not look at while a chain is stepped through (summaries of earlier stages, the continuation's
+   specification) are wrapped in [hidden] and unwrapped where they are needed *)
+Definition hidden (P : Prop) : Prop := P.
+Ltac hide H := match type of H with ?T => change (hidden T) in H end.
+Ltac unhide H := unfold hidden in H.
+
 (* ---- stepping tactics (goal: bind e (fun x => rest)) ---- *)
 Ltac bintro :=
   lazymatch goal with |- bind _ (fun x => _) =>
